@@ -52,3 +52,17 @@ package keeper
 //@   ensures #c13-negative-rejected: total < 0 && k.asset.HasAsset(ctx, assetID) ==> err != nil
 //@   ensures #c13-nonneg: netfee(k, ctx, appID, assetID) >= 0
 //@   ensures #c13-frame: forall a, b :: (a != appID || b != assetID) ==> k.GetNetFeeCollectedData(ctx, a, b) == old(k.GetNetFeeCollectedData(ctx, a, b))
+
+// Paying pending locker savings of an (app, asset) out of the collector (C13): for every locker, coins leave collector
+// custody only together with an equal decrease of the recorded net fees - a locker whose reward exceeds the recorded fees
+// is skipped without moving anything - so (custody - recorded net fees) of the asset never shrinks.
+//@ func (k Keeper) LockerIterateRewards
+//@   property C13
+//@   let cm = modaddr("collectorV1")
+//@   let d = k.asset.GetAsset(ctx, assetID).0.Denom
+//@   requires #nonneg-book: netfee(k, ctx, appID, assetID) >= 0
+//@   requires #lockers-of-asset: forall id :: K("locker").GetLocker(ctx, id).0.AssetDepositId == assetID
+//@   loop 0 invariant #books: bal(cm, d) - netfee(k, ctx, appID, assetID) >= old(bal(cm, d) - netfee(k, ctx, appID, assetID)) && netfee(k, ctx, appID, assetID) >= 0
+//@   loop 0 invariant #lockers-of-asset: forall id :: K("locker").GetLocker(ctx, id).0.AssetDepositId == assetID
+//@   loop 0 invariant #asset-fixed: k.asset.GetAsset(ctx, assetID).0.Denom == d
+//@   ensures #c13-custody-moves-with-book: bal(cm, d) - netfee(k, ctx, appID, assetID) >= old(bal(cm, d) - netfee(k, ctx, appID, assetID))
